@@ -25,6 +25,13 @@
 (* Dev = named deviations of the code from the stated property:            *)
 (*   "NoIndexFlowNone"  with boxes_flow=None no box index is assigned      *)
 (*                      (every index stays -1)                             *)
+(*   "GridOrderTies"    the members of a text box are collected in the     *)
+(*                      order in which utils.Plane.find answers (grid      *)
+(*                      cells of 50 pt, bottom-up): lines of one box with  *)
+(*                      the same top edge come out in an order that        *)
+(*                      depends on where the absolute grid falls, i.e. on  *)
+(*                      the scale of the page (intended: the order in      *)
+(*                      which the lines were yielded)                      *)
 (* Dev = {} is the intended design; the invariants below are C08 and C09.  *)
 (***************************************************************************)
 EXTENDS LayoutOps, TLC, Json
@@ -46,6 +53,7 @@ VARIABLES P, wh, tie, txt, page, bc, pc, k, cur, lines, emp, tl, bmap, bxs, tb, 
 vars == <<P, wh, tie, txt, page, bc, pc, k, cur, lines, emp, tl, bmap, bxs, tb, ord, nodes, heap, pl, dn, out>>
 
 NoneFlow == P.bf[2] = 0
+GridOrder == "GridOrderTies" \in Dev
 PosIn(s, x) == CHOOSE i \in 1..Len(s) : s[i] = x
 Ids(n) == [i \in 1..n |-> i]
 
@@ -167,7 +175,7 @@ SplitEmpties ==
 
 \* ------------------------------------------------------------------ group_textlines
 GTLStep == /\ pc = "gtl" /\ k <= Len(tl)
-           /\ LET r == MergeStep(k, Neighbors(tl, k, P.lm, PG, G), bmap, bxs) IN bmap' = r.bmap /\ bxs' = r.bxs
+           /\ LET r == MergeStep(k, Neighbors(tl, k, P.lm, PG, G, GridOrder), bmap, bxs) IN bmap' = r.bmap /\ bxs' = r.bxs
            /\ k' = k + 1
            /\ UNCHANGED <<P, wh, tie, txt, page, bc, pc, cur, lines, emp, tl, tb, ord, nodes, heap, pl, dn, out>>
 BoxOf(ls) == [o |-> tl[ls[1]].o, ls |-> ls, bb |-> UnionAll([i \in 1..Len(ls) |-> tl[ls[i]].bb]), idx |-> -1]
@@ -412,7 +420,7 @@ SL(L, s) == [L EXCEPT !.bb = ScaleBox(@, s), !.last = @ * s]
 STL(s) == [i \in 1..Len(tl) |-> SL(tl[i], s)]
 RECURSIVE GTLFold(_, _, _, _)
 GTLFold(tls, pgs, j, st) == IF j > Len(tls) THEN st
-                            ELSE GTLFold(tls, pgs, j + 1, MergeStep(j, Neighbors(tls, j, P.lm, pgs, G), st.bmap, st.bxs))
+                            ELSE GTLFold(tls, pgs, j + 1, MergeStep(j, Neighbors(tls, j, P.lm, pgs, G, GridOrder), st.bmap, st.bxs))
 FoldBoxes(tls, pgs) ==
   LET st == GTLFold(tls, pgs, 1, [bmap |-> [l \in 1..Len(tls) |-> 0], bxs |-> <<>>])
       lt(o, a, b) == IF o = "H" THEN tls[a].bb[4] > tls[b].bb[4] ELSE tls[a].bb[3] > tls[b].bb[3]
@@ -424,7 +432,7 @@ ScaleInvariant == \A s \in Scales :
         /\ Valign(GB(k - 1), GB(k), P) = Valign(ScaleBox(GB(k - 1), s), ScaleBox(GB(k), s), P)
         /\ cur.o # "N" => NeedSpace(cur, GB(k), P) = NeedSpace(SL(cur, s), ScaleBox(GB(k), s), P)
   /\ pc = "gtl" /\ k <= Len(tl) =>
-        Range(Neighbors(tl, k, P.lm, PG, G)) = Range(Neighbors(STL(s), k, P.lm, ScaleBox(PG, s), G))
+        Range(Neighbors(tl, k, P.lm, PG, G, TRUE)) = Range(Neighbors(STL(s), k, P.lm, ScaleBox(PG, s), G, TRUE))
   /\ pc \in {"flat", "gtb0"} =>
         [i \in 1..Len(tb) |-> SortedLines(tb[i])] = FoldBoxes(STL(s), ScaleBox(PG, s))
   /\ pc = "gtb" => \A e \in MinEntries(heap) : (e[3] \notin dn /\ e[4] \notin dn) =>
